@@ -32,7 +32,7 @@ fn gen_plan(rng: &mut Rng) -> ReqPlan {
     let finish = match rng.below(3) {
         0 => Finish::Respond { status: 200, body_len: 5, declared: true, threshold: None, max_piece: 1000 },
         1 => Finish::Drop,
-        _ => Finish::Writer { status: 200, body_len: 5, parts: vec![(1000, true)], early_drop_sleep_us: 0 },
+        _ => Finish::Writer { status: 200, body_len: 5, parts: vec![(1000, true)], early_drop_sleep_us: 0, vectored: false },
     };
     ReqPlan { read, read_sizes: vec![*rng.pick(&[1usize, 100, 4096, 65536])], as_reader_calls: 1, finish, pre_delay_us: 0, zero_read_after: None, read_api: ReadApi::Read }
 }
